@@ -82,7 +82,7 @@ structure SweepInv (g : Graph) (placed0 : List Nat) (st : Sweep) (done : List Na
   run : isRunFrom g [] st.placed = true
   bound : ∀ x ∈ st.placed, x < g.size
   same : st.progressed = false → st.placed = placed0
-  frontier : st.progressed = false → st.stale = none →
+  frontier : st.progressed = false → st.stale = [] →
     ∀ n ∈ done, n ∈ placed0 ∨ (g.preds n).all placed0.contains = false
 
 theorem sweepStep_inv {g : Graph} {placed0 : List Nat} {st : Sweep} {done : List Nat} {n : Nat}
@@ -127,17 +127,10 @@ theorem sweepStep_inv {g : Graph} {placed0 : List Nat} {st : Sweep} {done : List
         · exact h.bound x hx
         · exact hn
       | false =>
-        cases h4 : st.stale with
-        | none =>
-          have e : sweepStep g [] st n = { st with stale := some (n, blockedInputs g st.placed n) } := by
-            simp [sweepStep, h1m, h2, h3, h4]
-          rw [e]
-          exact ⟨h.run, h.bound, h.same, by simp⟩
-        | some v =>
-          have e : sweepStep g [] st n = st := by simp [sweepStep, h1m, h2, h3, h4]
-          rw [e]
-          refine ⟨h.run, h.bound, h.same, fun _ hs => ?_⟩
-          rw [h4] at hs; cases hs
+        have e : sweepStep g [] st n = { st with stale := st.stale ++ [(n, blockedInputs g st.placed n)] } := by
+          simp [sweepStep, h1m, h2, h3]
+        rw [e]
+        exact ⟨h.run, h.bound, h.same, by simp⟩
 
 theorem sweep_fold_inv {g : Graph} {placed0 : List Nat} :
     ∀ (l : List Nat) (st : Sweep) (done : List Nat), (∀ n ∈ l, n < g.size) → SweepInv g placed0 st done →
@@ -162,7 +155,7 @@ theorem sweep_inv {g : Graph} {placed0 : List Nat} (hrun : isRunFrom g [] placed
     left out still waits for a dependency. -/
 theorem findStalemateLoop_none {g : Graph} :
     ∀ (fuel : Nat) (placed : List Nat), isRunFrom g [] placed = true → (∀ x ∈ placed, x < g.size) →
-      findStalemateLoop g [] fuel placed = none →
+      findStalemateLoop g [] fuel placed = [] →
       ∃ final, isRunFrom g [] final = true ∧ (∀ x ∈ final, x < g.size) ∧
         ∀ n, n < g.size → n ∈ final ∨ (g.preds n).all final.contains = false := by
   intro fuel
@@ -245,12 +238,13 @@ theorem mem_blockedInputs {g : Graph} {placed : List Nat} {n b : Nat} (h : b ∈
   exact (List.mem_filter.mp h).1
 
 /-- a reported stalemate names a node of the graph and dependencies of that node. -/
-def StaleOk (g : Graph) (o : Option (Nat × List Nat)) : Prop :=
-  ∀ n bl, o = some (n, bl) → ∀ b ∈ bl, b ∈ g.preds n
+def StaleOk (g : Graph) (o : List (Nat × List Nat)) : Prop :=
+  ∀ n bl, (n, bl) ∈ o → ∀ b ∈ bl, b ∈ g.preds n
 
 theorem sweepStep_stale (g : Graph) (ign : List Nat) (st : Sweep) (n : Nat) :
     (sweepStep g ign st n).stale = st.stale ∨
-      (sweepStep g ign st n).stale = some (n, if ign.contains n then [] else blockedInputs g st.placed n) := by
+      (sweepStep g ign st n).stale =
+        st.stale ++ [(n, if ign.contains n then [] else blockedInputs g st.placed n)] := by
   simp only [sweepStep]
   repeat' split
   all_goals first | (left; rfl) | (right; simp_all)
@@ -261,11 +255,12 @@ theorem sweepStep_staleOk {g : Graph} {ign : List Nat} {st : Sweep} {n : Nat} (h
   · rw [e]; exact h
   · rw [e]
     intro m bl hm b hb
-    simp only [Option.some.injEq, Prod.mk.injEq] at hm
-    obtain ⟨rfl, rfl⟩ := hm
-    split at hb
-    · cases hb
-    · exact mem_blockedInputs hb
+    simp only [List.mem_append, List.mem_singleton, Prod.mk.injEq] at hm
+    rcases hm with hm | ⟨rfl, rfl⟩
+    · exact h m bl hm b hb
+    · split at hb
+      · cases hb
+      · exact mem_blockedInputs hb
 
 theorem sweep_staleOk (g : Graph) (ign placed : List Nat) : StaleOk g (sweep g ign placed).stale := by
   unfold sweep
@@ -282,8 +277,8 @@ theorem findStalemateLoop_staleOk (g : Graph) (ign : List Nat) :
   induction fuel with
   | zero =>
     intro placed n bl h b hb
-    simp only [findStalemateLoop, outOfFuel, Option.some.injEq, Prod.mk.injEq] at h
-    rw [← h.2] at hb; cases hb
+    simp only [findStalemateLoop, outOfFuel, List.mem_singleton, Prod.mk.injEq] at h
+    rw [h.2] at hb; cases hb
   | succ f ih =>
     intro placed
     simp only [findStalemateLoop]
@@ -353,7 +348,7 @@ theorem findStalemate_staleOk (g : Graph) (ign : List Nat) : StaleOk g (findStal
 theorem resolveLoop_sound :
     ∀ (fuel : Nat) (g : Graph) (reported : List Nat) (ds : List OsDiag) (g' : Graph),
       resolveLoop fuel g reported ds = (g', []) → g.wellFormed = true → (∃ r, Ranked g r) →
-      ds = [] ∧ g'.wellFormed = true ∧ (∃ r, Ranked g' r) ∧ (reported = [] → findStalemate g' [] = none) := by
+      ds = [] ∧ g'.wellFormed = true ∧ (∃ r, Ranked g' r) ∧ (reported = [] → findStalemate g' [] = []) := by
   intro fuel
   induction fuel with
   | zero =>
@@ -367,15 +362,19 @@ theorem resolveLoop_sound :
       simp only [Prod.mk.injEq] at h
       obtain ⟨rfl, rfl⟩ := h
       exact ⟨rfl, hwf, hr, fun hrep => by rw [← hrep]; exact hnone⟩
-    · rename_i n bl hsome
+    · rename_i n0 bl0 rest hsome
       split at h
-      · rename_i b hb
-        have hbm : b ∈ bl := List.mem_of_find?_eq_some hb
-        have hpred : b ∈ g.preds n := findStalemate_staleOk g reported n bl hsome b hbm
+      · rename_i n b hfs
+        obtain ⟨s, hs, hf⟩ := List.exists_of_findSome?_eq_some hfs
+        simp only [Option.map_eq_some_iff, Prod.mk.injEq] at hf
+        obtain ⟨b', hb', rfl, rfl⟩ := hf
+        have hbm : b' ∈ s.2 := List.mem_of_find?_eq_some hb'
+        have hpred : b' ∈ g.preds s.1 :=
+          findStalemate_staleOk g reported s.1 s.2 (by rw [hsome]; exact hs) b' hbm
         obtain ⟨r, hr⟩ := hr
         have := insertClone_wf_ranked hwf hr hpred
         exact ih _ reported ds g' h this.1 ⟨_, this.2⟩
-      · have := (ih g (reported ++ [n]) (ds ++ [.stalemate n bl]) g' h hwf hr).1
+      · have := (ih g (reported ++ [n0]) (ds ++ [.stalemate n0 bl0]) g' h hwf hr).1
         simp at this
 
 end Pxv.CG
